@@ -26,7 +26,7 @@ def check_C45(tier):
     core.stage()
     rep = core.Report(prop, "rider:E3+E4 under profile/trace", tier, seed)
     rep.rule = ("the generator-history workloads of E3 and the exception fault-plan workloads of E4, compiled with profile=True, linetrace=True, -DCYTHON_TRACE=1 and run under "
-                "sys.setprofile (even cases) / sys.settrace (odd cases) with a monitor checked while the run proceeds: every start event of a workload function is matched by "
+                "sys.setprofile, sys.settrace, or both at once (cases alternate) with a monitor checked while the run proceeds: every start event of a workload function is matched by "
                 "exactly one return event of the same code object, properly nested; the stack of open activations is empty at the end of each history/plan; line events "
                 "occur inside the activation of their function and name a line inside its def span. Faults: the same throws, closes, abandonments and injected raises. "
                 "non-trivial / distinct as in the host engines")
@@ -58,7 +58,7 @@ def _replay_e3_traced(ms, h, mode):
     from . import tracemon
     sut, model, sm = e3_gen.load_pair(ms)
     f19 = () if os.environ.get("SIMKIT_RAW_REPLAY") else tracemon.funcs_returning_inside_try_finally(ms["src"])
-    mon = tracemon.Monitor(mode, ms["name"] + ".py", tracemon.function_spans(ms["src"]), f19)
+    mon = tracemon.make(mode, ms["name"] + ".py", tracemon.function_spans(ms["src"]), f19)
     mon.install()
     try:
         e3_gen.run_history(sut, h, sm)
@@ -71,7 +71,7 @@ def _replay_e4_traced(ms, fi, arg, plan, mode):
     from . import tracemon
     pair = e4_exc.load_pair(ms)
     f19 = () if os.environ.get("SIMKIT_RAW_REPLAY") else tracemon.funcs_returning_inside_try_finally(ms["src"])
-    mon = tracemon.Monitor(mode, ms["name"] + ".py", tracemon.function_spans(ms["src"]), f19)
+    mon = tracemon.make(mode, ms["name"] + ".py", tracemon.function_spans(ms["src"]), f19)
     mon.install()
     try:
         e4_exc.run_case(pair[0], fi, arg, plan, pair[2])
@@ -83,6 +83,8 @@ def _replay_e4_traced(ms, fi, arg, plan, mode):
 def replay(payload):
     core.stage()
     prop = payload["property"]
+    if prop == "C36" and not payload.get("corpus"):
+        raise core.HarnessError("C36 replays of host-engine cases: re-run the host engine's replay under the sanitizer environment")
     if prop == "C45":
         name = "wit45_" + core.digest(payload["src"])[:8]
         so = build.build_ext(name, payload["src"], ".py", cflags=TRACE_CFLAGS, directives=TRACE_DIRECTIVES)
@@ -96,6 +98,33 @@ def replay(payload):
         os.environ.pop("SIMKIT_RAW_REPLAY", None)
         print("replayed: %s %s" % (st, json.dumps(r)[:500] if r is not None else None))
         return st == "crash" or (st == "ok" and r is not None)
+    if payload.get("corpus"):
+        from . import rider_corpus
+        seed = payload.get("seed", 0)
+        if prop == "C39":
+            cell = [c for c in C39_CELLS if c["cell"] == payload["cell"]][0]
+            d0 = rider_corpus.build_cell("c39default")
+            d1 = rider_corpus.build_cell("c39" + cell["cell"], cell.get("cflags", ()), cell.get("directives"), cell.get("cplus", False))
+            a = core.run_one_forked(rider_corpus.run_all, d0[1], d0[0], seed, timeout=300)
+            b = core.run_one_forked(rider_corpus.run_all, d1[1], d1[0], seed, timeout=300)
+            bad = a[0] != "ok" or b[0] != "ok" or rider_corpus.first_diff(a[1], b[1], seed) is not None
+            print("replayed corpus: %s" % ("differs" if bad else "same"))
+            return bad
+        if prop == "C36":
+            # one corpus case under the sanitizers, in a sanitized interpreter
+            cname, cso = rider_corpus.build_cell("asan", ASAN_CFLAGS)
+            logdir = os.path.join(core.workdir(), "sanlogs-replay")
+            os.makedirs(logdir, exist_ok=True)
+            env = dict(os.environ, LD_PRELOAD=_san_lib("libasan.so") + ":" + _san_lib("libubsan.so"), PYTHONMALLOC="malloc",
+                       ASAN_OPTIONS="detect_leaks=0:abort_on_error=1:log_path=%s/asan" % logdir,
+                       UBSAN_OPTIONS="halt_on_error=1:abort_on_error=1:log_path=%s/ubsan" % logdir,
+                       PYTHONPATH=core.VERIF + os.pathsep + os.environ.get("PYTHONPATH", ""))
+            code = ("import sys, json; from simkit import build, rider_corpus as rc; m = build.load_ext(%r, %r); fn, args = json.loads(sys.argv[1]); "
+                    "print(getattr(m, fn)(*rc.to_args(fn, args)))" % (cname, cso))
+            r = subprocess.run([sys.executable, "-c", code, json.dumps(payload["case"])], env=env, capture_output=True, text=True, cwd=core.VERIF)
+            reports = _san_reports(logdir, 0)
+            print("replayed corpus case under sanitizers: exit %s %s" % (r.returncode, (reports[0][:300].replace("\n", " ") if reports else r.stdout.strip()[:100])))
+            return r.returncode != 0
     raise core.HarnessError("no replay for %s here" % prop)
 
 
@@ -155,7 +184,8 @@ def _c36_prebuild(seed, tier):
             lambda: e5_refs.build_modules(seed, sz["e5_mods"], 30, "asan", ASAN_CFLAGS),
             lambda: e6_loops.build_mods([{"cell": "asan", "cflags": ASAN_CFLAGS}], tag=""),
             lambda: e8_omp.build_module(ASAN_CFLAGS, ("-fsanitize=address,undefined",), name="wl37asan"),
-            _selftest_build]
+            _selftest_build,
+            lambda: __import__("simkit.rider_corpus", fromlist=["x"]).build_cell("asan", ASAN_CFLAGS)]
     with ThreadPoolExecutor(max_workers=len(jobs)) as ex:
         for f in [ex.submit(j) for j in jobs]:
             f.result()
@@ -222,6 +252,8 @@ def check_C36(tier):
         rep.probes["selftest_detects_" + which] = int(armed[which] == "crash")
     if armed["ok"] != "ok" or any(armed[w] != "crash" for w in ("oob", "uaf", "ovf")):
         rep.harness_errors.append("sanitizer observer is not armed: %r" % (armed,))
+    time.sleep(1.1)
+    t0 = time.time()        # sanitizer reports of the self-test are not evidence of anything
 
     def note(engine, i, v, recover):
         crashes.append((engine, i, v, recover))
@@ -275,6 +307,15 @@ def check_C36(tier):
         else:
             r.pop("violation", None)
             rep.absorb(r)
+    # enumerated corpus under the sanitizers (slicing/indexing around the bounds, big-int arithmetic helpers)
+    from . import rider_corpus
+    cname, cso = rider_corpus.build_cell("asan", ASAN_CFLAGS)
+    st, r = core.run_one_forked(rider_corpus.run_all, cso, cname, seed, timeout=600)
+    if st == "ok":
+        rep.evaluations += len(r)
+        rep.probes["corpus_cases_under_sanitizers"] = len(r)
+    else:
+        note("corpus", -1, {"klass": "crash", "detail": {"status": st, "info": r}, "corpus": True}, None)
     rep.probes["sanitizer_runtime_loaded"] = int("libasan" in os.environ.get("LD_PRELOAD", ""))
     reports = _san_reports(logdir, t0) if logdir else []
     rep.probes["sanitizer_report_files"] = len(reports)
@@ -398,6 +439,45 @@ def check_C39(tier):
                     rep.absorb(r)
                     if v:
                         found.append((c["cell"], "E6", i, v))
+    # enumerated corpus (integer arithmetic with constants at the PyLong digit boundaries, slicing/indexing around the bounds) in ALL cells
+    from . import rider_corpus
+    from concurrent.futures import ThreadPoolExecutor
+    all_cells = [{"cell": "default", "cflags": ()}] + list(C39_CELLS)
+
+    def _b(c):
+        try:
+            return rider_corpus.build_cell("c39" + c["cell"], c.get("cflags", ()), c.get("directives"), c.get("cplus", False))
+        except core.HarnessError as e:
+            return e
+    with ThreadPoolExecutor(max_workers=len(all_cells)) as ex:
+        built = list(ex.map(_b, all_cells))
+    outs = {}
+    for c, b in zip(all_cells, built):
+        if isinstance(b, Exception):
+            rep.probes["corpus_not_built:" + c["cell"]] = 1
+            continue
+        st, r = core.run_one_forked(rider_corpus.run_all, b[1], b[0], seed, timeout=300)
+        if st != "ok":
+            rep.violation("corpus run crashed in build cell %s: %s" % (c["cell"], r), {"klass": "corpus-crash", "cell": c["cell"], "detail": {"status": st, "info": r}, "property": prop, "corpus": True, "seed": seed})
+            continue
+        outs[c["cell"]] = r
+        rep.evaluations += len(r)
+        rep.probes["corpus_cases_per_cell"] = len(r)
+    rep.probes["corpus_cells_compared"] = max(0, len(outs) - 1)
+    if "default" in outs:
+        m = rider_corpus.model_all(seed)
+        d0 = rider_corpus.first_diff(m, outs["default"], seed)
+        if d0:
+            rep.probes["corpus_default_build_differs_from_python_(not_config_specific)"] = 1
+        for cell, r in outs.items():
+            if cell == "default":
+                continue
+            d = rider_corpus.first_diff(outs["default"], r, seed)
+            if d:
+                rep.violation("corpus result differs between the default build and cell %s: %s" % (cell, json.dumps(d)[:300]),
+                              {"klass": "corpus-differs-between-cells", "cell": cell, "detail": dict(d, a_is="default", b_is=cell,
+                               python_says=(m[d["index"]] if d["index"] < len(m) else None)), "property": prop, "corpus": True, "seed": seed})
+                break
     rep.determinism = {"seeds": 0, "mismatches": 0, "note": "host engines' self-checks apply"}
     seen = set()
     for cell, eng, i, v in found:
